@@ -88,11 +88,11 @@ class ndarray:
     __hash__ = None
 
 
-def zeros(n):
+def zeros(n, dtype=None):
     return ndarray([SymNum({}, 0, 1) for _ in range(n)])
 
 
-def array(x):
+def array(x, dtype=None):
     return ndarray([_w(v) for v in x])
 
 
@@ -110,6 +110,101 @@ def floor(x):
 def ceil(x):
     if isinstance(x, float) and (math.isinf(x) or math.isnan(x)): return x
     return math.ceil(x)
+
+
+def _seq(a):
+    return list(a) if hasattr(a, '__iter__') else [a]
+
+
+def isclose(a, b, rtol=1e-05, atol=1e-08, equal_nan=False):
+    """numpy's definition: |a - b| <= atol + rtol * |b|   (exact rationals here; float rounding at the boundary is settled by replay)"""
+    a = _w(a); b = _w(b)
+    if isinstance(a, float) or isinstance(b, float):      # inf / nan
+        return a == b
+    return abs(a - b) <= _w(atol) + _w(rtol) * abs(b)
+
+
+def allclose(a, b, rtol=1e-05, atol=1e-08):
+    return all(isclose(x, y, rtol, atol) for x, y in zip(_seq(a), _seq(b)))
+
+
+def array_equal(a, b):
+    a = _seq(a); b = _seq(b)
+    return len(a) == len(b) and all(x == y for x, y in zip(a, b))
+
+
+def absolute(x):
+    return ndarray([abs(v) for v in x]) if hasattr(x, '__iter__') else abs(_w(x))
+
+
+_builtin_sum, _builtin_max, _builtin_min, _builtin_sorted = sum, max, min, sorted
+
+
+def _np_sum(a, axis=None):
+    return _builtin_sum(_seq(a), SymNum({}, 0, 1))
+
+
+def _np_max(a, axis=None):
+    return _builtin_max(_seq(a))
+
+
+def _np_min(a, axis=None):
+    return _builtin_min(_seq(a))
+
+
+amax, amin = _np_max, _np_min
+
+
+def maximum(a, b): return a if a >= b else b
+def minimum(a, b): return a if a <= b else b
+
+
+def argmin(a):
+    l = _seq(a); return _builtin_min(range(len(l)), key=l.__getitem__)
+
+
+def argmax(a):
+    l = _seq(a); return _builtin_max(range(len(l)), key=l.__getitem__)
+
+
+def argsort(a, kind=None):
+    l = _seq(a); return ndarray(_builtin_sorted(range(len(l)), key=l.__getitem__))
+
+
+def sort(a):
+    return ndarray(_builtin_sorted(_w(v) for v in a))
+
+
+def cumsum(a):
+    res = []; t = SymNum({}, 0, 1)
+    for v in a:
+        t = t + v; res.append(t)
+    return ndarray(res)
+
+
+def copy(a): return ndarray([_w(v) for v in a])
+def asarray(a, dtype=None): return a if isinstance(a, ndarray) else array(a)
+def ones(n, dtype=None): return ndarray([SymNum({}, 1, 1) for _ in range(n)])
+def full(n, v, dtype=None): return ndarray([_w(v) for _ in range(n)])
+def empty(n, dtype=None): return zeros(n)
+def arange(*a): return ndarray([SymNum({}, i, 1) for i in range(*a)])
+def concatenate(seqs): return ndarray([_w(v) for s_ in seqs for v in s_])
+def isinf(x): return isinstance(x, float) and math.isinf(x)
+def isnan(x): return isinstance(x, float) and math.isnan(x)
+def isfinite(x): return not (isinstance(x, float) and (math.isinf(x) or math.isnan(x)))
+def sign(x): return 1 if x > 0 else (-1 if x < 0 else 0)
+def mean(a):
+    l = _seq(a); return _np_sum(l) / len(l)
+
+
+_SHADOWING = {'sum': _np_sum, 'max': _np_max, 'min': _np_min, 'abs': absolute}    # numpy names that would shadow builtins inside this module
+
+
+def __getattr__(name):
+    if name in _SHADOWING:
+        return _SHADOWING[name]
+    from .engine import Unsupported
+    raise Unsupported("numpy.%s is not modelled by the shim (stub S1)" % name)
 
 
 class _Random:
